@@ -664,6 +664,14 @@ pub fn cache(size: u64, prog: &[CacheOp]) -> String {
     if size.count_ones() == 1 && size > (1 << 24) {
         return format!("{} => SKIP", head);
     }
+    if size.count_ones() != 1 {
+        // a size that is not a power of two: construction must panic; if it does not, the table is
+        // not touched (its index mask is meaningless and any access may be out of bounds)
+        return match guard(|| { let _t: CacheTable<u32> = CacheTable::new(size as usize, 7); }) {
+            Some(()) => format!("{} => NOPANIC", head),
+            None => format!("{} => PANIC", head),
+        };
+    }
     let r = guard(|| {
         let mut t: CacheTable<u32> = CacheTable::new(size as usize, 7);
         let mut outs: Vec<String> = Vec::new();
